@@ -22,6 +22,9 @@ func init() {
 		rules.IngressPolicyIntersection(p, r, "C10-policy")
 		rules.IngressNamespaceScoping(p, r, "C10-ns")
 		rules.QueryPathWrites(p, r, "C10-pure")
+		// the controller is an UNLABELED pod: what the policies allow from it is decided by the selector library, which
+		// knows that NotIn / DoesNotExist requirements match a pod without labels
+		rules.LabelMatchingByLibrary(p, r, "C10-match")
 		rules.LoopCarriedPartialWrites(p, r, "C10-loop", core.PkgIngress)
 		r.Floor("C10-loop", 1)
 	})
